@@ -197,7 +197,35 @@ func (h *Hist) Insert(t *model.Table, rows int) *proto.Stmt {
 }
 
 // Where builds a condition over the never-NULL columns k and g.
+// Where returns a condition over k and g. One condition in five is written
+// with the literal on the left of each comparison (4 < k for k > 4): the
+// same condition, another spelling.
 func (h *Hist) Where(t *model.Table) *proto.Cond {
+	c := h.where(t)
+	if h.R.Chance(1, 5) {
+		c = mirrorCond(c)
+	}
+	return c
+}
+
+func mirrorCond(c *proto.Cond) *proto.Cond {
+	if c == nil {
+		return nil
+	}
+	if c.Op == "and" || c.Op == "or" {
+		return &proto.Cond{Op: c.Op, L: mirrorCond(c.L), R: mirrorCond(c.R)}
+	}
+	if c.LHS == nil || c.RHS == nil || c.LHS.Lit != nil || c.RHS.Lit == nil {
+		return c
+	}
+	op, ok := map[string]string{"=": "=", "!=": "!=", "<": ">", ">": "<", "<=": ">=", ">=": "<="}[c.Op]
+	if !ok {
+		return c
+	}
+	return &proto.Cond{Op: op, LHS: c.RHS, RHS: c.LHS}
+}
+
+func (h *Hist) where(t *model.Table) *proto.Cond {
 	maxK := h.kSeq[t.Name]
 	if maxK == 0 {
 		maxK = 1
